@@ -62,14 +62,34 @@ Print Assumptions C09_return_annotation_irrelevant.
 
 (* under the default resolution of validate_signature (derive with sig = true) nothing is
    coerced: an accepted argument already is a value of the annotated type, and the body is
-   handed an identical value (for containers as Python builds them: no two equal set members
-   or dict keys). PARTIAL: annotations without record classes; record classes are tied by the
-   strict family of the differential run. *)
-From KV Require Import Model.Derive Proofs.DeriveP.
+   handed an identical value - recursively through containers, dataclasses and NamedTuples.
+   Premises: values as Python builds them (inst_ok: an instance has exactly its class's fields;
+   proper: no two equal set members or dict keys). PARTIAL only in that TypedDict annotations
+   are left to the strict family: a TypedDict value may carry undeclared keys, which the
+   validator accepts and drops (see the recorded finding). *)
+From KV Require Import Model.Derive Proofs.DeriveP Proofs.DeriveR Corr.UserLib.
 Theorem C09_strict :
-  forall (E : env) a, plain a = true ->
+  forall (E : env) a, okstrict E a = true ->
     forall v, derive true a = Ok v ->
-    forall fuel x w, run E Sync fuel v x = OValid w ->
+    forall fuel x w, run E Sync fuel v x = OValid w -> inst_ok E x = true ->
                      has_type a x = true /\ (proper x = true -> w = x).
-Proof. exact derive_strict. Qed.
+Proof. exact derive_strict_all. Qed.
 Print Assumptions C09_strict.
+
+(* non-vacuity: a dataclass holding a list of NamedTuples; the look-alike dict is rejected *)
+Section StrictExample.
+  Import ListNotations. Open Scope Z_scope.
+  Definition sa := VStr [97]. Definition sb := VStr [98].
+  Definition E1 : env :=
+    mk_env [Build_cls (CkData false) false [(sa, None); (sb, Some (VInt 7))];
+                         Build_cls CkNamed true [(sa, None)]] [] [] [] [] [].
+  Definition NT := ARecord RkNamed 1%nat [(sa, (AScalar KDecimal, true))].
+  Definition DC := ARecord RkData 0%nat [(sa, (AList NT, true)); (sb, (AScalar KInt, false))].
+  Definition inst := VObj 0%nat [(sa, VList [VObj 1%nat [(sa, VDecimal (DFin false 15 (-1)))]]); (sb, VInt 2)].
+  Example C09_strict_nonvacuous :
+    okstrict E1 DC = true /\ inst_ok E1 inst = true /\ proper inst = true /\
+    exists v, derive true DC = Ok v /\ run E1 Sync 8 v inst = OValid inst /\
+              (exists i, run E1 Sync 8 v (VDict [(sa, VList []); (sb, VInt 2)]) = OInvalid i) /\
+              (exists i, run E1 Sync 8 v (VObj 0%nat [(sa, VList [VObj 1%nat [(sa, VStr [49])]]); (sb, VInt 2)]) = OInvalid i).
+  Proof. repeat split; try reflexivity. eexists. repeat split; try (vm_compute; reflexivity); eexists; vm_compute; reflexivity. Qed.
+End StrictExample.
